@@ -295,6 +295,14 @@ pub struct ReplayFile {
     /// which simulator binary produced it: "sim" or "rayonstub"
     #[serde(default = "default_binary")]
     pub binary: String,
+    /// tier of the batch (the generators differ per tier)
+    #[serde(default)]
+    pub tier: String,
+    /// the failure only shows after the preceding runs of its batch have executed in the same process
+    /// (state leaking between runs through process-wide statics or thread-locals of the library):
+    /// replay then re-executes runs 0..run_index first
+    #[serde(default)]
+    pub needs_history: bool,
 }
 
 fn default_binary() -> String {
@@ -457,6 +465,8 @@ pub fn run_batch<S: Scenario>(sc: &S, opts: &BatchOpts) -> BatchOutcome {
                             plan: pv.clone(),
                             original_plan: pv,
                             binary: this_binary(),
+                            tier: opts.tier.name().into(),
+                            needs_history: false,
                         };
                         let path = write_replay(&opts.replay_dir, &rf);
                         outln!(
@@ -566,20 +576,40 @@ pub fn run_batch<S: Scenario>(sc: &S, opts: &BatchOpts) -> BatchOutcome {
             plan: serde_json::to_value(&plan).unwrap(),
             original_plan: serde_json::to_value(&plan0).unwrap(),
             binary: this_binary(),
+            tier: opts.tier.name().into(),
+            needs_history: false,
         };
+        let mut rf = rf;
         let path = write_replay(&opts.replay_dir, &rf);
         // re-run the minimised file in a fresh process
         let fresh = std::process::Command::new(std::env::current_exe().unwrap())
             .arg("replay")
             .arg(&path)
             .output();
-        let reproduced = match &fresh {
+        let mut reproduced = match &fresh {
             Ok(o) => {
                 o.status.code() == Some(1)
                     && String::from_utf8_lossy(&o.stdout).contains("VIOLATION")
             }
             Err(_) => false,
         };
+        let mut how = "reproduced";
+        if !reproduced && *i > 0 {
+            // maybe the failing state was built up by the earlier runs of this batch: replay them first
+            rf.needs_history = true;
+            let hpath = write_replay(&opts.replay_dir, &rf);
+            let again = std::process::Command::new(std::env::current_exe().unwrap()).arg("replay").arg(&hpath).output();
+            reproduced = match &again {
+                Ok(o) => o.status.code() == Some(1) && String::from_utf8_lossy(&o.stdout).contains("VIOLATION"),
+                Err(_) => false,
+            };
+            if reproduced {
+                how = "reproduced-after-replaying-the-batch-history";
+            } else {
+                rf.needs_history = false;
+                write_replay(&opts.replay_dir, &rf);
+            }
+        }
         outln!("VIOLATION property={} replay={}", vmin.property, path.display());
         outln!(
             "  scenario={} oracle={} key={} run={} run_seed={} shrink_steps={} fresh_process_replay={}",
@@ -589,7 +619,7 @@ pub fn run_batch<S: Scenario>(sc: &S, opts: &BatchOpts) -> BatchOutcome {
             i,
             rs,
             steps,
-            if reproduced { "reproduced" } else { "NOT-reproduced" }
+            if reproduced { how } else { "NOT-reproduced" }
         );
         outln!("  detail: {}", truncate(&vmin.detail, 600));
         n_viol += 1;
@@ -738,6 +768,17 @@ pub fn replay<S: Scenario>(sc: &S, rf: &ReplayFile, known_file: &Path, path: &Pa
             return 2;
         }
     };
+    if rf.needs_history {
+        let tier = if rf.tier == "thorough" { Tier::Thorough } else { Tier::Quick };
+        outln!("replay: re-executing runs 0..{} of the batch first (state shared between runs)", rf.run_index + 64);
+        // runs with a slightly higher index may have executed earlier in time on other workers
+        for j in (0..rf.run_index + 64).filter(|j| *j != rf.run_index) {
+            let rs = run_seed(rf.verif_seed, sc.name(), &rf.property, j);
+            let mut rng = Rng::new(rs);
+            let p = sc.generate(&mut rng, tier, &rf.property);
+            let _ = exec_plan(sc, &p, &rf.property);
+        }
+    }
     let (v, ctx) = exec_plan(sc, &plan, &rf.property);
     match v {
         None => {
